@@ -5,10 +5,10 @@ C10 — Store transactions are atomic and serialized under any abort point.
 
 `P2.TxLts` is the labelled transition system of `SqliteStore::{begin, tx, commit, rollback}` and
 `TransactionPermit::drop`.  Everything below is proved for every reachable state, i.e. for any number of tasks,
-any scripts (a task may take any enabled step) and any schedule, by one invariant over `Reach`.
+any scripts (a task may take any enabled step — including queries issued through `tx()` by tasks that share the
+transaction without holding the permit) and any schedule, by one invariant over `Reach`.
 Assumed, not proved: SQLite/sqlx atomicity ("commit applies the buffer, anything else discards it") and that
-the tokio runtime eventually runs the spawned rollback task (`rbTake`, `rbRelease` are always enabled once
-spawned — `c10_progress` uses exactly that).
+the tokio runtime eventually runs the spawned rollback task.
 -/
 namespace P2.C10
 open P2.TxLts
@@ -18,7 +18,12 @@ inductive Reach : St → Prop
   | step {s s' : St} {a : Act} : Reach s → stepFn s a = some s' → Reach s'
 
 def holds : PC → Bool
-  | .acquired | .inTx _ | .committing _ _ | .rollingBack _ => true
+  | .acquired | .inTx | .committing _ | .rollingBack => true
+  | _ => false
+
+/-- a transaction of this task is under way (opened, not yet ended) -/
+def live : PC → Bool
+  | .inTx | .committing _ | .rollingBack => true
   | _ => false
 
 structure Inv (s : St) : Prop where
@@ -26,105 +31,127 @@ structure Inv (s : St) : Prop where
   owner_hold : ∀ t, s.owner = .task t → holds (s.pc t) = true
   spawned_iff : s.owner = .spawned ↔ s.spawn ≠ .none
   acq_slot : ∀ t, s.pc t = .acquired → s.slot = none
-  intx_slot : ∀ t ws, s.pc t = .inTx ws → s.slot = some ws ∧ ∀ w ∈ ws, w.tid = t
-  com_slot : ∀ t buf ws, s.pc t = .committing buf ws → s.slot = none ∧ buf = ws ∧ ∀ w ∈ ws, w.tid = t
-  rb_slot : ∀ t ws, s.pc t = .rollingBack ws → s.slot = none
+  intx_slot : ∀ t, s.pc t = .inTx → s.slot.isSome = true
+  com_slot : ∀ t buf, s.pc t = .committing buf → s.slot = none ∧ ∀ w ∈ buf, w.txn = s.txn
+  rb_slot : ∀ t, s.pc t = .rollingBack → s.slot = none
   free_slot : s.owner = .free → s.slot = none
   rel_slot : s.spawn = .releasing → s.slot = none
+  lock_slot : s.lock.isSome = true → s.slot.isSome = true
+  slot_txn : ∀ buf, s.slot = some buf → ∀ w ∈ buf, w.txn = s.txn
+  stash_none : s.stash = none
   q_wait : ∀ t, t ∈ s.queue ↔ s.pc t = .waiting
   q_nodup : s.queue.Nodup
   q_free : s.owner = .free → s.queue = []
   db_hist : s.db = (s.hist.map (·.2)).flatten
-  hist_tid : ∀ t ws, (t, ws) ∈ s.hist → ∀ w ∈ ws, w.tid = t
+  hist_txn : ∀ i buf, (i, buf) ∈ s.hist → ∀ w ∈ buf, w.txn = i
+  hist_le : ∀ i buf, (i, buf) ∈ s.hist → i ≤ s.txn
+  ab_le : ∀ i, i ∈ s.aborted → i ≤ s.txn
+  live_fresh : ∀ t, live (s.pc t) = true → (∀ i buf, (i, buf) ∈ s.hist → i ≠ s.txn) ∧ s.txn ∉ s.aborted
+  disjoint : ∀ i buf, (i, buf) ∈ s.hist → i ∉ s.aborted
+
+private theorem live_holds {p : PC} (h : live p = true) : holds p = true := by
+  cases p <;> simp_all [live, holds]
 
 private theorem inv_init : Inv St.init := by
-  constructor <;> simp [St.init, holds]
+  constructor <;> simp [St.init, holds, live]
 
 /-- closes one field of the invariant for one explicit successor state -/
 macro "inv_field" : tactic => `(tactic|
   first
-    | grind [upd, holds, List.mem_erase_of_ne, List.Nodup.erase, List.nodup_cons, List.Nodup.mem_erase_iff]
+    | grind [upd, holds, live, live_holds, List.mem_erase_of_ne, List.Nodup.erase, List.nodup_cons, List.Nodup.mem_erase_iff]
     | (simp only [List.map_append, List.flatten_append, List.map_cons, List.map_nil, List.flatten_cons,
-        List.flatten_nil, List.append_nil]; grind [upd, holds])
-    | (intro _ _ hm; simp only [List.mem_append, List.mem_singleton, Prod.mk.injEq] at hm; grind [upd, holds]))
+        List.flatten_nil, List.append_nil]; grind [upd, holds, live, live_holds])
+    | (intro _ _ hm; simp only [List.mem_append, List.mem_singleton, Prod.mk.injEq] at hm; grind [upd, holds, live, live_holds])
+    | (intro _ hm; simp only [List.mem_append, List.mem_singleton] at hm; grind [upd, holds, live, live_holds])
+    | (simp only [List.mem_append, List.mem_singleton, Prod.mk.injEq]; grind [upd, holds, live, live_holds]))
 
 macro "inv_action" hs:ident : tactic => `(tactic|
   (simp only [stepFn, release] at $hs:ident <;> (repeat (split at $hs:ident)) <;>
     simp at $hs:ident <;> subst $hs:ident <;> constructor <;> simp only [] <;> inv_field))
 
-set_option maxHeartbeats 1000000 in
+set_option maxHeartbeats 2000000 in
 private theorem inv_want {s s' : St} (t : Nat) (h : Inv s) (hs : stepFn s (.want t) = some s') : Inv s' := by
-  obtain ⟨h1, h2, h3, h4, h5, h6, h7, h8, h9, q1, q2, q3, h10, h11⟩ := h
+  obtain ⟨h1, h2, h3, h4, h5, h6, h7, h8, h9, hl1, hl2, hst, q1, q2, q3, h10, h11, h12, h13, h14, h15⟩ := h
   inv_action hs
 
-set_option maxHeartbeats 1000000 in
+set_option maxHeartbeats 2000000 in
 private theorem inv_opened {s s' : St} (t : Nat) (h : Inv s) (hs : stepFn s (.opened t) = some s') : Inv s' := by
-  obtain ⟨h1, h2, h3, h4, h5, h6, h7, h8, h9, q1, q2, q3, h10, h11⟩ := h
+  obtain ⟨h1, h2, h3, h4, h5, h6, h7, h8, h9, hl1, hl2, hst, q1, q2, q3, h10, h11, h12, h13, h14, h15⟩ := h
   inv_action hs
 
-set_option maxHeartbeats 1000000 in
+set_option maxHeartbeats 2000000 in
 private theorem inv_cancelWait {s s' : St} (t : Nat) (h : Inv s) (hs : stepFn s (.cancelWait t) = some s') : Inv s' := by
-  obtain ⟨h1, h2, h3, h4, h5, h6, h7, h8, h9, q1, q2, q3, h10, h11⟩ := h
+  obtain ⟨h1, h2, h3, h4, h5, h6, h7, h8, h9, hl1, hl2, hst, q1, q2, q3, h10, h11, h12, h13, h14, h15⟩ := h
   inv_action hs
 
-set_option maxHeartbeats 1000000 in
+set_option maxHeartbeats 2000000 in
 private theorem inv_cancelAcquired {s s' : St} (t : Nat) (h : Inv s) (hs : stepFn s (.cancelAcquired t) = some s') : Inv s' := by
-  obtain ⟨h1, h2, h3, h4, h5, h6, h7, h8, h9, q1, q2, q3, h10, h11⟩ := h
+  obtain ⟨h1, h2, h3, h4, h5, h6, h7, h8, h9, hl1, hl2, hst, q1, q2, q3, h10, h11, h12, h13, h14, h15⟩ := h
   inv_action hs
 
-set_option maxHeartbeats 1000000 in
-private theorem inv_write {s s' : St} (t : Nat) (n : Nat) (b : Bool) (h : Inv s) (hs : stepFn s (.write t n b) = some s') : Inv s' := by
-  obtain ⟨h1, h2, h3, h4, h5, h6, h7, h8, h9, q1, q2, q3, h10, h11⟩ := h
+set_option maxHeartbeats 2000000 in
+private theorem inv_txEnter {s s' : St} (t : Nat) (h : Inv s) (hs : stepFn s (.txEnter t) = some s') : Inv s' := by
+  obtain ⟨h1, h2, h3, h4, h5, h6, h7, h8, h9, hl1, hl2, hst, q1, q2, q3, h10, h11, h12, h13, h14, h15⟩ := h
   inv_action hs
 
-set_option maxHeartbeats 1000000 in
+set_option maxHeartbeats 2000000 in
+private theorem inv_txExit {s s' : St} (t : Nat) (n : Nat) (b : Bool) (h : Inv s) (hs : stepFn s (.txExit t n b) = some s') : Inv s' := by
+  obtain ⟨h1, h2, h3, h4, h5, h6, h7, h8, h9, hl1, hl2, hst, q1, q2, q3, h10, h11, h12, h13, h14, h15⟩ := h
+  inv_action hs
+
+set_option maxHeartbeats 2000000 in
+private theorem inv_txCancel {s s' : St} (t : Nat) (h : Inv s) (hs : stepFn s (.txCancel t) = some s') : Inv s' := by
+  obtain ⟨h1, h2, h3, h4, h5, h6, h7, h8, h9, hl1, hl2, hst, q1, q2, q3, h10, h11, h12, h13, h14, h15⟩ := h
+  inv_action hs
+
+set_option maxHeartbeats 2000000 in
 private theorem inv_commitTake {s s' : St} (t : Nat) (h : Inv s) (hs : stepFn s (.commitTake t) = some s') : Inv s' := by
-  obtain ⟨h1, h2, h3, h4, h5, h6, h7, h8, h9, q1, q2, q3, h10, h11⟩ := h
+  obtain ⟨h1, h2, h3, h4, h5, h6, h7, h8, h9, hl1, hl2, hst, q1, q2, q3, h10, h11, h12, h13, h14, h15⟩ := h
   inv_action hs
 
-set_option maxHeartbeats 1000000 in
+set_option maxHeartbeats 2000000 in
 private theorem inv_commitDone {s s' : St} (t : Nat) (h : Inv s) (hs : stepFn s (.commitDone t) = some s') : Inv s' := by
-  obtain ⟨h1, h2, h3, h4, h5, h6, h7, h8, h9, q1, q2, q3, h10, h11⟩ := h
+  obtain ⟨h1, h2, h3, h4, h5, h6, h7, h8, h9, hl1, hl2, hst, q1, q2, q3, h10, h11, h12, h13, h14, h15⟩ := h
   inv_action hs
 
-set_option maxHeartbeats 1000000 in
+set_option maxHeartbeats 2000000 in
 private theorem inv_commitFail {s s' : St} (t : Nat) (h : Inv s) (hs : stepFn s (.commitFail t) = some s') : Inv s' := by
-  obtain ⟨h1, h2, h3, h4, h5, h6, h7, h8, h9, q1, q2, q3, h10, h11⟩ := h
+  obtain ⟨h1, h2, h3, h4, h5, h6, h7, h8, h9, hl1, hl2, hst, q1, q2, q3, h10, h11, h12, h13, h14, h15⟩ := h
   inv_action hs
 
-set_option maxHeartbeats 1000000 in
+set_option maxHeartbeats 2000000 in
 private theorem inv_cancelCommit {s s' : St} (t : Nat) (ap : Bool) (h : Inv s) (hs : stepFn s (.cancelCommit t ap) = some s') : Inv s' := by
-  obtain ⟨h1, h2, h3, h4, h5, h6, h7, h8, h9, q1, q2, q3, h10, h11⟩ := h
+  obtain ⟨h1, h2, h3, h4, h5, h6, h7, h8, h9, hl1, hl2, hst, q1, q2, q3, h10, h11, h12, h13, h14, h15⟩ := h
   inv_action hs
 
-set_option maxHeartbeats 1000000 in
+set_option maxHeartbeats 2000000 in
 private theorem inv_rollbackTake {s s' : St} (t : Nat) (h : Inv s) (hs : stepFn s (.rollbackTake t) = some s') : Inv s' := by
-  obtain ⟨h1, h2, h3, h4, h5, h6, h7, h8, h9, q1, q2, q3, h10, h11⟩ := h
+  obtain ⟨h1, h2, h3, h4, h5, h6, h7, h8, h9, hl1, hl2, hst, q1, q2, q3, h10, h11, h12, h13, h14, h15⟩ := h
   inv_action hs
 
-set_option maxHeartbeats 1000000 in
+set_option maxHeartbeats 2000000 in
 private theorem inv_rollbackDone {s s' : St} (t : Nat) (h : Inv s) (hs : stepFn s (.rollbackDone t) = some s') : Inv s' := by
-  obtain ⟨h1, h2, h3, h4, h5, h6, h7, h8, h9, q1, q2, q3, h10, h11⟩ := h
+  obtain ⟨h1, h2, h3, h4, h5, h6, h7, h8, h9, hl1, hl2, hst, q1, q2, q3, h10, h11, h12, h13, h14, h15⟩ := h
   inv_action hs
 
-set_option maxHeartbeats 1000000 in
+set_option maxHeartbeats 2000000 in
 private theorem inv_cancelRollback {s s' : St} (t : Nat) (h : Inv s) (hs : stepFn s (.cancelRollback t) = some s') : Inv s' := by
-  obtain ⟨h1, h2, h3, h4, h5, h6, h7, h8, h9, q1, q2, q3, h10, h11⟩ := h
+  obtain ⟨h1, h2, h3, h4, h5, h6, h7, h8, h9, hl1, hl2, hst, q1, q2, q3, h10, h11, h12, h13, h14, h15⟩ := h
   inv_action hs
 
-set_option maxHeartbeats 1000000 in
+set_option maxHeartbeats 2000000 in
 private theorem inv_dropPermit {s s' : St} (t : Nat) (h : Inv s) (hs : stepFn s (.dropPermit t) = some s') : Inv s' := by
-  obtain ⟨h1, h2, h3, h4, h5, h6, h7, h8, h9, q1, q2, q3, h10, h11⟩ := h
+  obtain ⟨h1, h2, h3, h4, h5, h6, h7, h8, h9, hl1, hl2, hst, q1, q2, q3, h10, h11, h12, h13, h14, h15⟩ := h
   inv_action hs
 
-set_option maxHeartbeats 1000000 in
+set_option maxHeartbeats 2000000 in
 private theorem inv_rbTake {s s' : St}  (h : Inv s) (hs : stepFn s (.rbTake ) = some s') : Inv s' := by
-  obtain ⟨h1, h2, h3, h4, h5, h6, h7, h8, h9, q1, q2, q3, h10, h11⟩ := h
+  obtain ⟨h1, h2, h3, h4, h5, h6, h7, h8, h9, hl1, hl2, hst, q1, q2, q3, h10, h11, h12, h13, h14, h15⟩ := h
   inv_action hs
 
-set_option maxHeartbeats 1000000 in
+set_option maxHeartbeats 2000000 in
 private theorem inv_rbRelease {s s' : St}  (h : Inv s) (hs : stepFn s (.rbRelease ) = some s') : Inv s' := by
-  obtain ⟨h1, h2, h3, h4, h5, h6, h7, h8, h9, q1, q2, q3, h10, h11⟩ := h
+  obtain ⟨h1, h2, h3, h4, h5, h6, h7, h8, h9, hl1, hl2, hst, q1, q2, q3, h10, h11, h12, h13, h14, h15⟩ := h
   inv_action hs
 
 private theorem inv_step {s s' : St} {a : Act} (h : Inv s) (hs : stepFn s a = some s') : Inv s' := by
@@ -133,7 +160,9 @@ private theorem inv_step {s s' : St} {a : Act} (h : Inv s) (hs : stepFn s a = so
   | opened t => exact inv_opened t h hs
   | cancelWait t => exact inv_cancelWait t h hs
   | cancelAcquired t => exact inv_cancelAcquired t h hs
-  | write t n b => exact inv_write t n b h hs
+  | txEnter t => exact inv_txEnter t h hs
+  | txExit t n b => exact inv_txExit t n b h hs
+  | txCancel t => exact inv_txCancel t h hs
   | commitTake t => exact inv_commitTake t h hs
   | commitDone t => exact inv_commitDone t h hs
   | commitFail t => exact inv_commitFail t h hs
@@ -151,16 +180,19 @@ private theorem inv_reach {s : St} (h : Reach s) : Inv s := by
   | step _ hs ih => exact inv_step ih hs
 
 /-- **Mutual exclusion.** In every reachable state at most one task is inside `begin … commit/rollback`
-    (holds the permit), an open transaction object implies the semaphore is taken, no task holds the permit
-    while the spawned rollback task does, and the `assert!(tx_ref.is_none())` in `begin` cannot fire: a task
-    that has just acquired the permit always finds the slot empty. -/
+    (holds the permit); an open transaction object implies the semaphore is taken; no task holds the permit
+    while the spawned rollback task does; the `assert!(tx_ref.is_none())` in `begin` cannot fire (a task that
+    has just acquired the permit always finds the slot empty); and while a `tx()` query is in flight the
+    transaction is in the slot, behind the lock — so whoever wants to take it out (commit, rollback, the
+    clean-up task) finds it there and waits for the query. -/
 theorem c10_mutex {s : St} (h : Reach s) :
     (∀ t u, holds (s.pc t) = true → holds (s.pc u) = true → t = u) ∧
     (s.slot.isSome → s.owner ≠ .free) ∧
     (s.spawn ≠ .none → ∀ t, holds (s.pc t) = false) ∧
-    (∀ t, s.pc t = .acquired → s.slot = none) := by
+    (∀ t, s.pc t = .acquired → s.slot = none) ∧
+    (s.lock.isSome = true → s.slot.isSome = true) := by
   have i := inv_reach h
-  refine ⟨?_, ?_, ?_, i.acq_slot⟩
+  refine ⟨?_, ?_, ?_, i.acq_slot, i.lock_slot⟩
   · intro t u ht hu
     have h1 := i.hold_owner t ht
     have h2 := i.hold_owner u hu
@@ -178,21 +210,20 @@ theorem c10_mutex {s : St} (h : Reach s) :
       rw [ho] at this
       cases this
 
-/-- **Isolation.** While a task is inside its transaction, the open sqlx transaction contains exactly that
-    task's own writes of this transaction, in order — nobody else's, nothing left over from an aborted one. -/
-theorem c10_isolation {s : St} (h : Reach s) (t : Nat) (ws : List Write) (ht : s.pc t = .inTx ws) :
-    s.slot = some ws ∧ ∀ w ∈ ws, w.tid = t :=
-  (inv_reach h).intx_slot t ws ht
+/-- **Isolation.** The open sqlx transaction only ever contains rows written in *this* transaction (by its
+    holder or by tasks sharing it): nothing of an earlier, aborted or committed, transaction is left in it, and
+    nothing of it has an earlier number. -/
+theorem c10_isolation {s : St} (h : Reach s) (buf : List Write) (hb : s.slot = some buf) :
+    ∀ w ∈ buf, w.txn = s.txn :=
+  (inv_reach h).slot_txn buf hb
 
-/-- **Serial.** The committed database is the concatenation, in commit order, of the write lists of exactly
-    the committed transactions (each as the committing task itself issued it, each entirely by that task). -/
+/-- **Serial.** The committed database is the concatenation, in commit order, of the row lists of exactly the
+    committed transactions, each consisting of rows of that one transaction only. -/
 theorem c10_serial {s : St} (h : Reach s) :
-    s.db = (s.hist.map (·.2)).flatten ∧ ∀ t ws, (t, ws) ∈ s.hist → ∀ w ∈ ws, w.tid = t :=
-  ⟨(inv_reach h).db_hist, (inv_reach h).hist_tid⟩
+    s.db = (s.hist.map (·.2)).flatten ∧ ∀ i buf, (i, buf) ∈ s.hist → ∀ w ∈ buf, w.txn = i :=
+  ⟨(inv_reach h).db_hist, (inv_reach h).hist_txn⟩
 
-/-- Actions by which a transaction ends without (successfully) committing, plus the spawned task's steps and
-    everything before/inside a transaction: none of them touches the committed database. Only `commitDone`
-    and a cancelled-but-applied commit (`cancelCommit _ true`) do. -/
+/-- Only `commitDone` and a cancelled-but-applied commit (`cancelCommit _ true`) touch the committed rows. -/
 def commits : Act → Bool
   | .commitDone _ => true
   | .cancelCommit _ true => true
@@ -200,11 +231,12 @@ def commits : Act → Bool
 
 /-- **No trace.** A step that is not a (possibly cancelled but applied) commit leaves the committed rows and
     the list of committed transactions untouched — rollback, failed commit, dropped permit, `?`, panic,
-    cancellation at any await point, and the spawned rollback contribute nothing; and every committed row
-    belongs to a committed transaction of the task that wrote it. -/
+    cancellation at any await point, queries in flight and the spawned rollback contribute nothing; every
+    committed row belongs to a committed transaction; and no committed row was written in a transaction that
+    ended any other way (a transaction ends exactly once: committed and aborted numbers are disjoint). -/
 theorem c10_no_trace :
     (∀ (s s' : St) (a : Act), stepFn s a = some s' → commits a = false → s'.db = s.db ∧ s'.hist = s.hist) ∧
-    (∀ s, Reach s → ∀ w ∈ s.db, ∃ ws, (w.tid, ws) ∈ s.hist ∧ w ∈ ws) := by
+    (∀ s, Reach s → ∀ w ∈ s.db, (∃ buf, (w.txn, buf) ∈ s.hist ∧ w ∈ buf) ∧ w.txn ∉ s.aborted) := by
   constructor
   · intro s s' a hs hc
     cases a <;> simp only [stepFn, release] at hs <;> (repeat (split at hs)) <;>
@@ -214,15 +246,18 @@ theorem c10_no_trace :
     rw [i.db_hist] at hw
     simp only [List.mem_flatten, List.mem_map] at hw
     obtain ⟨l, ⟨⟨t, ws⟩, he, rfl⟩, hwl⟩ := hw
-    have := i.hist_tid t ws he w hwl
-    exact ⟨ws, by rw [this]; exact he, hwl⟩
+    have := i.hist_txn t ws he w hwl
+    refine ⟨⟨ws, by rw [this]; exact he, hwl⟩, ?_⟩
+    rw [this]
+    exact i.disjoint t ws he
 
-/-- Steps allowed in the progress argument for task `t`: whoever holds the permit only *finishes* what it has
-    started (completes `begin`, rolls back / completes its commit) — this includes the tasks queued before `t`,
-    which tokio's fair semaphore serves first — and the spawned rollback task runs. No task starts a new
-    `begin`, writes, or is cancelled. -/
+/-- Steps allowed in the progress argument for task `t`: a query in flight completes, whoever holds the permit
+    only *finishes* what it has started (completes `begin`, rolls back / completes its commit) — this includes
+    the tasks queued before `t`, which tokio's fair semaphore serves first — and the spawned rollback task runs.
+    No task starts a new `begin` or a new query, or is cancelled. -/
 def finishing (t : Nat) : Act → Bool
   | .opened _ => true
+  | .txExit _ _ _ => true
   | .rollbackTake u => u != t
   | .rollbackDone u => u != t
   | .commitDone u => u != t
@@ -250,18 +285,48 @@ private theorem reach_run {s s' : St} (h : Reach s) (as : List Act) (hr : runAct
     | none => simp [hs] at hr
     | some s1 => rw [hs] at hr; exact ih (Reach.step h hs) hr
 
+/-- A query in flight can always complete; afterwards the lock is free and nothing else has changed as far as
+    the permit protocol is concerned. -/
+private theorem unlock_path {s : St} (h : Reach s) (t : Nat) :
+    ∃ as s', (∀ a ∈ as, finishing t a = true) ∧ runActs s as = some s' ∧ s'.lock = none ∧
+      s'.pc = s.pc ∧ s'.queue = s.queue ∧ s'.owner = s.owner ∧ s'.spawn = s.spawn ∧
+      (s.slot.isSome = true → s'.slot.isSome = true) ∧ (s.slot = none → s'.slot = none) := by
+  have i := inv_reach h
+  cases hl : s.lock with
+  | none => exact ⟨[], s, by simp, rfl, hl, rfl, rfl, rfl, rfl, id, id⟩
+  | some x =>
+    have hs := i.lock_slot (by simp [hl])
+    cases hsl : s.slot with
+    | none => rw [hsl] at hs; simp at hs
+    | some buf =>
+      refine ⟨[.txExit x 0 false], ?_⟩
+      simp [runActs, stepFn, hsl, hl, finishing]
+
 /-- One round: from a reachable state in which `t` is queued, finishing steps make the current owner give the
     permit back; the head of the queue gets it. Either that is `t`, or `t` is still queued and the queue is
     shorter. -/
-private theorem release_round {s : St} (h : Reach s) (t : Nat) (hw : s.pc t = .waiting) :
+private theorem release_round {s : St} (h0 : Reach s) (t : Nat) (hw0 : s.pc t = .waiting) :
     ∃ as s', (∀ a ∈ as, finishing t a = true) ∧ runActs s as = some s' ∧
       (s'.pc t = .acquired ∨ (s'.pc t = .waiting ∧ s'.queue.length < s.queue.length)) := by
+  -- first let a query in flight complete
+  obtain ⟨as0, s1, hfin0, hrun0, hlock, hpc, hq1, ho1, hsp1, hsl1, hsl0⟩ := unlock_path h0 t
+  have h := reach_run h0 as0 hrun0
+  have hw : s1.pc t = .waiting := by rw [hpc]; exact hw0
+  suffices hsuff : ∃ as s', (∀ a ∈ as, finishing t a = true) ∧ runActs s1 as = some s' ∧
+      (s'.pc t = .acquired ∨ (s'.pc t = .waiting ∧ s'.queue.length < s1.queue.length)) by
+    obtain ⟨as, s', hfin, hrun, hres⟩ := hsuff
+    refine ⟨as0 ++ as, s', ?_, ?_, ?_⟩
+    · intro a ha
+      rcases List.mem_append.mp ha with ha | ha
+      · exact hfin0 a ha
+      · exact hfin a ha
+    · rw [runActs_append, hrun0]; exact hrun
+    · rw [hq1] at hres; exact hres
   have i := inv_reach h
-  have htq : t ∈ s.queue := (i.q_wait t).mpr hw
-  cases hq : s.queue with
+  have htq : t ∈ s1.queue := (i.q_wait t).mpr hw
+  cases hq : s1.queue with
   | nil => rw [hq] at htq; cases htq
   | cons u q =>
-    -- what `release` does to `t`
     have hu_t : u = t ∨ (u ≠ t ∧ t ∈ q) := by
       rw [hq] at htq
       rcases List.mem_cons.mp htq with e | e
@@ -269,18 +334,18 @@ private theorem release_round {s : St} (h : Reach s) (t : Nat) (hw : s.pc t = .w
       · by_cases hut : u = t
         · exact Or.inl hut
         · exact Or.inr ⟨hut, e⟩
-    cases ho : s.owner with
+    cases ho : s1.owner with
     | free => have := i.q_free ho; rw [hq] at this; cases this
     | spawned =>
       have hsp := i.spawned_iff.mp ho
-      cases hs : s.spawn with
+      cases hs : s1.spawn with
       | none => exact absurd hs hsp
       | pending =>
         refine ⟨[.rbTake, .rbRelease], ?_⟩
         rcases hu_t with e | ⟨hne, _⟩
-        · subst e; simp [runActs, stepFn, release, hs, hq, finishing, upd]
+        · subst e; simp [runActs, stepFn, release, hs, hq, hlock, finishing, upd]
         · have : ¬ t = u := fun e => hne e.symm
-          simp [runActs, stepFn, release, hs, hq, finishing, upd, this, hw]
+          simp [runActs, stepFn, release, hs, hq, hlock, finishing, upd, this, hw]
       | releasing =>
         refine ⟨[.rbRelease], ?_⟩
         rcases hu_t with e | ⟨hne, _⟩
@@ -293,54 +358,54 @@ private theorem release_round {s : St} (h : Reach s) (t : Nat) (hw : s.pc t = .w
         intro e; subst e; rw [hw] at hv; simp [holds] at hv
       have htv : ¬ t = v := fun e => hvt e.symm
       have hne : (v != t) = true := by simp [hvt]
-      have hvu : ¬ u = v := by
-        intro e
-        have : s.pc u = .waiting := (i.q_wait u).mp (by rw [hq]; exact List.mem_cons_self)
-        rw [e] at this; rw [this] at hv; simp [holds] at hv
-      cases hpc : s.pc v with
-      | idle => rw [hpc] at hv; simp [holds] at hv
-      | waiting => rw [hpc] at hv; simp [holds] at hv
+      cases hpc' : s1.pc v with
+      | idle => rw [hpc'] at hv; simp [holds] at hv
+      | waiting => rw [hpc'] at hv; simp [holds] at hv
       | acquired =>
-        have hslot := i.acq_slot v hpc
+        have hslot := i.acq_slot v hpc'
         refine ⟨[.opened v, .rollbackTake v, .rollbackDone v], ?_⟩
         rcases hu_t with e | ⟨hut, _⟩
-        · subst e; simp [runActs, stepFn, release, hpc, hslot, hq, finishing, hne, upd]
+        · subst e; simp [runActs, stepFn, release, hpc', hslot, hlock, hq, finishing, hne, upd]
         · have : ¬ t = u := fun e => hut e.symm
-          simp [runActs, stepFn, release, hpc, hslot, hq, finishing, hne, upd, this, htv, hw]
-      | inTx ws =>
-        have hslot := (i.intx_slot v ws hpc).1
-        refine ⟨[.rollbackTake v, .rollbackDone v], ?_⟩
-        rcases hu_t with e | ⟨hut, _⟩
-        · subst e; simp [runActs, stepFn, release, hpc, hslot, hq, finishing, hne, upd]
-        · have : ¬ t = u := fun e => hut e.symm
-          simp [runActs, stepFn, release, hpc, hslot, hq, finishing, hne, upd, this, htv, hw]
-      | committing buf ws =>
+          simp [runActs, stepFn, release, hpc', hslot, hlock, hq, finishing, hne, upd, this, htv, hw]
+      | inTx =>
+        have hslot := i.intx_slot v hpc'
+        cases hsl : s1.slot with
+        | none => rw [hsl] at hslot; simp at hslot
+        | some buf =>
+          refine ⟨[.rollbackTake v, .rollbackDone v], ?_⟩
+          rcases hu_t with e | ⟨hut, _⟩
+          · subst e; simp [runActs, stepFn, release, hpc', hsl, hlock, hq, finishing, hne, upd]
+          · have : ¬ t = u := fun e => hut e.symm
+            simp [runActs, stepFn, release, hpc', hsl, hlock, hq, finishing, hne, upd, this, htv, hw]
+      | committing buf =>
         by_cases hb : noBad buf = true
         · refine ⟨[.commitDone v], ?_⟩
           rcases hu_t with e | ⟨hut, _⟩
-          · subst e; simp [runActs, stepFn, release, hpc, hb, hq, finishing, hne, upd]
+          · subst e; simp [runActs, stepFn, release, hpc', hb, hq, finishing, hne, upd]
           · have : ¬ t = u := fun e => hut e.symm
-            simp [runActs, stepFn, release, hpc, hb, hq, finishing, hne, upd, this, htv, hw]
+            simp [runActs, stepFn, release, hpc', hb, hq, finishing, hne, upd, this, htv, hw]
         · refine ⟨[.commitFail v], ?_⟩
           rcases hu_t with e | ⟨hut, _⟩
-          · subst e; simp [runActs, stepFn, release, hpc, hq, finishing, hne, upd]
+          · subst e; simp [runActs, stepFn, release, hpc', hq, finishing, hne, upd]
           · have : ¬ t = u := fun e => hut e.symm
-            simp [runActs, stepFn, release, hpc, hq, finishing, hne, upd, this, htv, hw]
-      | rollingBack ws =>
+            simp [runActs, stepFn, release, hpc', hq, finishing, hne, upd, this, htv, hw]
+      | rollingBack =>
         refine ⟨[.rollbackDone v], ?_⟩
         rcases hu_t with e | ⟨hut, _⟩
-        · subst e; simp [runActs, stepFn, release, hpc, hq, finishing, hne, upd]
+        · subst e; simp [runActs, stepFn, release, hpc', hq, finishing, hne, upd]
         · have : ¬ t = u := fun e => hut e.symm
-          simp [runActs, stepFn, release, hpc, hq, finishing, hne, upd, this, htv, hw]
+          simp [runActs, stepFn, release, hpc', hq, finishing, hne, upd, this, htv, hw]
 
 /-- **Progress.** From every reachable state in which some task `t` waits in `begin`, a state where `t` is
-    inside its own (empty) transaction is reachable using only finishing steps (the owner and the tasks queued
-    before `t` complete and end their transactions, the spawned rollback runs): no abort point — rollback,
-    failed commit, dropped permit, cancellation inside `begin`, `commit` or `rollback` — leaks the permit. -/
+    inside its own transaction is reachable using only finishing steps (a query in flight completes, the owner
+    and the tasks queued before `t` complete and end their transactions, the spawned rollback runs): no abort
+    point — rollback, failed commit, dropped permit (also with a query of a sharing task in flight),
+    cancellation inside `begin`, `commit` or `rollback` — leaks the permit. -/
 theorem c10_progress {s : St} (h : Reach s) (t : Nat) (hw : s.pc t = .waiting) :
-    ∃ as s', (∀ a ∈ as, finishing t a = true) ∧ runActs s as = some s' ∧ s'.pc t = .inTx [] := by
+    ∃ as s', (∀ a ∈ as, finishing t a = true) ∧ runActs s as = some s' ∧ s'.pc t = .inTx := by
   have key : ∀ n (s : St), Reach s → s.pc t = .waiting → s.queue.length = n →
-      ∃ as s', (∀ a ∈ as, finishing t a = true) ∧ runActs s as = some s' ∧ s'.pc t = .inTx [] := by
+      ∃ as s', (∀ a ∈ as, finishing t a = true) ∧ runActs s as = some s' ∧ s'.pc t = .inTx := by
     intro n
     induction n using Nat.strongRecOn with
     | _ n ih =>
@@ -348,10 +413,15 @@ theorem c10_progress {s : St} (h : Reach s) (t : Nat) (hw : s.pc t = .waiting) :
       obtain ⟨as, s1, hfin, hrun, hcase⟩ := release_round h t hw
       have h1 := reach_run h as hrun
       rcases hcase with hacq | ⟨hw1, hlt⟩
-      · have hslot := (inv_reach h1).acq_slot t hacq
+      · have i1 := inv_reach h1
+        have hslot := i1.acq_slot t hacq
+        have hlock : s1.lock = none := by
+          cases hl : s1.lock with
+          | none => rfl
+          | some x => have := i1.lock_slot (by simp [hl]); rw [hslot] at this; simp at this
         refine ⟨as ++ [.opened t], ?_⟩
-        have : ∃ s2, runActs s1 [.opened t] = some s2 ∧ s2.pc t = .inTx [] := by
-          simp [runActs, stepFn, hacq, hslot, upd]
+        have : ∃ s2, runActs s1 [.opened t] = some s2 ∧ s2.pc t = .inTx := by
+          simp [runActs, stepFn, hacq, hslot, hlock, upd]
         obtain ⟨s2, hr2, hp2⟩ := this
         refine ⟨s2, ?_, ?_, hp2⟩
         · intro a ha
@@ -381,28 +451,62 @@ theorem c10_extracted_drop :
       ["if let Some(tx) = tx.lock().await.take() {", "let _ = tx.rollback().await;", "}", "drop(permit);"] := by
   decide
 
-/-! ### the variant the harness is meant to catch, and non-vacuity -/
+/-- **Tie to the source text of `SqliteStore::tx()`**: it locks the slot, reaches the transaction *through the
+    guard* (`tx_ref.as_mut()`: the transaction stays in the slot) and awaits the caller's closure as its last
+    expression, i.e. with the `MutexGuard` still alive — the model's `txEnter … txExit` holding `lock`. Taking the
+    transaction out of the slot for the duration of the query, or dropping the guard before the closure runs,
+    changes this text and breaks the theorem. -/
+theorem c10_extracted_tx :
+    P2.Extracted.C10.txStmts =
+      ["let mut tx_ref = self.tx.lock().await;",
+       "let tx = tx_ref.as_mut().ok_or(SqliteError::TransactionMissing)?;",
+       "f(tx).await"] := by
+  decide
+
+/-! ### the variants the harness is meant to catch, and non-vacuity -/
 
 /-- If `Drop` released the semaphore at once and left only the rollback to the spawned task ("release before the
     rollback finishes"), a second task could acquire the permit while the first task's aborted transaction is
     still in the slot — the state in which `begin`'s `assert!` panics. -/
 theorem c10_early_release_violates :
-    ∃ s, (([Act.want 0, .opened 0, .write 0 1 false, .dropPermit 0, .want 1] : List Act).foldl
+    ∃ s, (([Act.want 0, .opened 0, .txEnter 0, .txExit 0 1 false, .dropPermit 0, .want 1] : List Act).foldl
             (fun (o : Option St) a => o.bind (fun s => stepFnEarlyRelease s a)) (some St.init)) = some s ∧
-      s.pc 1 = .acquired ∧ s.slot = some [{ tid := 0, n := 1, bad := false }] := by
+      s.pc 1 = .acquired ∧ s.slot = some [{ tid := 0, n := 1, bad := false, txn := 1 }] := by
   refine ⟨_, rfl, ?_, ?_⟩ <;> simp [upd, release, St.init]
 
+/-- If `tx()` took the transaction out of the slot while its query runs ("do not hold the lock across a long
+    query"), a permit dropped while a query of a task sharing the transaction is in flight makes the clean-up task
+    find an empty slot: it rolls back nothing and releases the permit; the query then puts the aborted, still
+    open transaction back. Result: an open transaction in the slot while the permit is free (`c10_mutex` fails),
+    the next `begin` runs into its `assert!` — or, begun inside the window, gets its fresh transaction replaced
+    by the stale one and commits the aborted rows. -/
+theorem c10_take_out_violates :
+    ∃ s, (([Act.want 0, .opened 0, .txEnter 0, .txExit 0 1 false, .txEnter 7, .dropPermit 0, .rbTake, .rbRelease,
+            .txExit 7 2 false, .want 1] : List Act).foldl
+            (fun (o : Option St) a => o.bind (fun s => stepFnTakeOut s a)) (some St.init)) = some s ∧
+      s.pc 1 = .acquired ∧ s.owner = .task 1 ∧ 1 ∈ s.aborted ∧
+      s.slot = some [{ tid := 0, n := 1, bad := false, txn := 1 }, { tid := 7, n := 2, bad := false, txn := 1 }] := by
+  refine ⟨_, rfl, ?_, ?_, ?_, ?_⟩ <;> simp [upd, release, St.init]
+
+/-- In the real protocol the same schedule is not possible: the clean-up task cannot take the transaction while
+    the query is in flight (`rbTake` is not enabled) … -/
+example : (runActs St.init [.want 0, .opened 0, .txEnter 7, .dropPermit 0, .rbTake]).isNone = true := by decide
+/-- … it can once the query has completed, and then the slot is empty before the permit is released. -/
+example : (runActs St.init [.want 0, .opened 0, .txEnter 7, .dropPermit 0, .txExit 7 2 false, .rbTake, .rbRelease,
+    .want 1]).map (fun s => (s.pc 1, s.slot, s.db)) = some (PC.acquired, none, []) := by decide
+
 private def demo : List Act :=
-  [.want 0, .want 1, .opened 0, .write 0 1 false, .write 0 2 false, .commitTake 0, .commitDone 0,
-   .opened 1, .write 1 3 false, .dropPermit 1, .want 0, .rbTake, .rbRelease,
-   .opened 0, .write 0 4 false, .commitTake 0, .cancelCommit 0 true, .want 2, .rbTake, .rbRelease,
-   .opened 2, .write 2 5 true, .commitTake 2, .commitFail 2]
+  [.want 0, .want 1, .opened 0, .txEnter 0, .txExit 0 1 false, .txEnter 5, .txExit 5 2 false, .commitTake 0,
+   .commitDone 0,
+   .opened 1, .txEnter 1, .txExit 1 3 false, .dropPermit 1, .want 0, .rbTake, .rbRelease,
+   .opened 0, .txEnter 0, .txExit 0 4 false, .commitTake 0, .cancelCommit 0 true, .want 2, .rbTake, .rbRelease,
+   .opened 2, .txEnter 2, .txExit 2 5 true, .commitTake 2, .commitFail 2]
 
 example : (runActs St.init demo).map (·.db) =
-    some [⟨0, 1, false⟩, ⟨0, 2, false⟩, ⟨0, 4, false⟩] := by decide
+    some [⟨0, 1, false, 1⟩, ⟨5, 2, false, 1⟩, ⟨0, 4, false, 3⟩] := by decide
 example : (runActs St.init demo).map (·.hist) =
-    some [(0, [⟨0, 1, false⟩, ⟨0, 2, false⟩]), (0, [⟨0, 4, false⟩])] := by decide
-example : (runActs St.init demo).map (·.aborted) = some [(1, [⟨1, 3, false⟩]), (2, [⟨2, 5, true⟩])] := by decide
+    some [(1, [⟨0, 1, false, 1⟩, ⟨5, 2, false, 1⟩]), (3, [⟨0, 4, false, 3⟩])] := by decide
+example : (runActs St.init demo).map (·.aborted) = some [2, 4] := by decide
 example : (runActs St.init demo).map (·.owner) = some Owner.free := by decide
 /-- while the spawned rollback owns the permit a new `begin` is queued, and gets the permit by hand-over -/
 example : (runActs St.init [.want 0, .opened 0, .dropPermit 0, .want 1]).map (fun s => (s.pc 1, s.owner)) =
